@@ -59,6 +59,39 @@ when the mantissa is shorter), together with the sign and the position of that l
 /-- position of the leading bit of |u|: 2^(bitExp u − 1) ≤ |u| < 2^(bitExp u) -/
 def bitExp (u : F) : Int := 64 * u.exp - (clz (topLimb u.d) : Int)
 
+/-- `bitExp` is the position of the leading bit of the value: 2^(bitExp u − 1) ≤ |u| < 2^(bitExp u). -/
+theorem bitExp_bounds (u : F) (hu : OpWF u) (h0 : u.size ≠ 0) :
+    (2 : ℚ) ^ (bitExp u - 1) ≤ |toQ u| ∧ |toQ u| < (2 : ℚ) ^ (bitExp u) := by
+  have hne : u.d ≠ [] := List.ne_nil_of_length_pos (OpWF.len_pos hu h0)
+  obtain ⟨h1, h2, h3⟩ := log2_val u.d hu.1 hne hu.2.2.1
+  have hv0 : val u.d ≠ 0 := Nat.pos_iff_ne_zero.mp (val_pos_of_top hne hu.2.2.1)
+  have lo : 2 ^ Nat.log2 (val u.d) ≤ val u.d := Nat.log2_self_le hv0
+  have hi : val u.d < 2 ^ (Nat.log2 (val u.d) + 1) := Nat.lt_log2_self
+  have habs : |toQ u| = qv u.d u.exp := by
+    rw [toQ_qv]; unfold sg
+    have := qv_nonneg u.d u.exp
+    split
+    · rw [show (-1 : ℚ) * qv u.d u.exp = -(qv u.d u.exp) by ring, abs_neg, abs_of_nonneg this]
+    · rw [one_mul, abs_of_nonneg this]
+  rw [habs]; unfold qv bitExp
+  have hB : (B : ℚ) ^ (u.exp - (u.d.length : ℤ)) = (2 : ℚ) ^ (64 * (u.exp - (u.d.length : ℤ))) := by
+    rw [Bq_eq, ← zpow_natCast (2 : ℚ) 64, ← zpow_mul]; norm_num
+  rw [hB]
+  have hp : (0 : ℚ) < (2 : ℚ) ^ (64 * (u.exp - (u.d.length : ℤ))) := zpow_pos (by norm_num) _
+  generalize hL : Nat.log2 (val u.d) = L at *
+  constructor
+  · have e : (2 : ℚ) ^ (64 * u.exp - (clz (topLimb u.d) : ℤ) - 1) =
+        ((2 ^ L : ℕ) : ℚ) * (2 : ℚ) ^ (64 * (u.exp - (u.d.length : ℤ))) := by
+      push_cast; rw [← zpow_natCast (2 : ℚ) L, ← zpow_add₀ (by norm_num : (2 : ℚ) ≠ 0)]; congr 1; omega
+    rw [e]; exact mul_le_mul_of_nonneg_right (by exact_mod_cast lo) (le_of_lt hp)
+  · have e : (2 : ℚ) ^ (64 * u.exp - (clz (topLimb u.d) : ℤ)) =
+        ((2 ^ (L + 1) : ℕ) : ℚ) * (2 : ℚ) ^ (64 * (u.exp - (u.d.length : ℤ))) := by
+      push_cast; rw [← zpow_natCast (2 : ℚ) (L + 1), ← zpow_add₀ (by norm_num : (2 : ℚ) ≠ 0)]; congr 1; push_cast; omega
+    rw [e]; exact mul_lt_mul_of_pos_right (by exact_mod_cast hi) hp
+
+-- 5·B^0 = 101b: leading bit at position 3
+example : bitExp ⟨2, 1, 1, [5]⟩ = 3 ∧ bitExp ⟨2, -2, -1, [0, 2 ^ 63]⟩ = -64 := by decide +kernel
+
 /-- mpf_eq (u, v, n) for EVERY bit count n: true iff both are zero, or both are non-zero with the same sign, the same
     leading-bit position and the same first n bits.  (n = 0 compares sign and leading-bit position only; n beyond the
     operands compares them entirely.)  Hypotheses: the operand rules and |size| < 2^31 (`_mp_size` is an int). -/
